@@ -3,25 +3,34 @@ package gitindex
 // C13 — delta builds expose the same per-branch content as full builds.
 // Mapped into /repo/gitindex by `go test -overlay`; never copied into /repo.
 //
-// One case = one generated history: a real git repository (git CLI: init --bare + fast-import, one commit per changed
-// branch and step) over 1-3 branches, whose steps add / modify / delete / rename files, revert a branch to an earlier
-// tree, copy a file from another branch, sync a branch to another branch's tree, move a file between branches, swap two
-// files — interleaved with gitindex.IndexGitRepo runs (full or delta).  After EVERY run:
+// One case = one generated history over 1-3 git branches, whose steps add / modify / delete / rename files, revert a
+// branch to an earlier tree, copy a file from another branch, sync a branch to another branch's tree, move a file between
+// branches, swap two files — interleaved with gitindex.IndexGitRepo runs (full or delta requested; the list of indexed
+// branches, the index options and ShardMax may change between runs; some histories set DeltaShardNumberFallbackThreshold).
+// ALL histories of a run live in ONE real bare git repository: every commit of every history is written up front by a
+// single `git fast-import`, the ground truth (commit -> files with blob ids) is read back by a single
+// `git fast-export --all --full-tree --no-data`, and a step of a history just points refs/heads/<branch> at its commits
+// (loose ref files) — no process is spawned per history.  After EVERY run:
 //   * Go oracle (the property): for every branch, Search(branch:<b>, Whole) over the index directory
 //     (search.NewDirectorySearcher) must return exactly one document per file of `git ls-tree -r <b>` with that blob's
 //     content (git blob id recomputed from the returned content), and nothing else;
+//   * which kind of build actually happened (observed from the shards: a delta build keeps every old shard, a normal build
+//     replaces them all) is compared with the fallback decision of Model/DeltaDecide.v;
 //   * correspondence: the stack of layers (shards grouped by the build that wrote them: raw documents with their branch
 //     sets, read WITHOUT the sidecar, + FileTombstones of the sidecar/metadata) is compared with Model/Delta.v.
 
 import (
+	"bufio"
 	"bytes"
 	"context"
 	"crypto/sha1"
 	"encoding/hex"
 	"fmt"
+	"io"
 	"os"
 	"os/exec"
 	"path/filepath"
+	"runtime"
 	"runtime/debug"
 	"sort"
 	"strings"
@@ -234,164 +243,438 @@ func c13Mutate(g *c13Gen, trees []c13Tree, hist [][]c13Tree, classes map[string]
 }
 
 type c13ShardObs struct {
+	file  string
 	id    string
 	docs  []string // coq odoc terms, sorted
 	tombs []int
+}
+
+// one indexing run of a history
+type c13Step struct {
+	trees    []c13Tree // per git branch of the history (universe), at the time of the run
+	marks    []int     // per git branch: fast-import mark of its commit
+	idx      []string  // the indexed branches (Options.Branches), in order; "HEAD" -> main
+	optV     int       // variant of the index options (see c13ApplyOpts)
+	shardMax int
+	par      int  // index.Options.Parallelism
+	delta    bool // IsDelta requested
+	orphan   bool // plant a ".meta" without shard at the next shard number before the run
+}
+
+type c13Hist struct {
+	g         *c13Gen
+	names     []string // git branches of the history
+	threshold int      // Options.DeltaShardNumberFallbackThreshold (0 = off)
+	steps     []c13Step
+	classes   map[string]bool
+}
+
+var c13BranchID = map[string]uint64{"HEAD": 0, "main": 1, "dev": 2, "rel": 3}
+
+// index options that take part in Options.GetHash (stored as Repository.IndexOptions) but do not change what is indexed
+// for the generated (tiny, text) files; variant numbers are the model's option ids
+func c13ApplyOpts(v int, o *index.Options) {
+	switch v {
+	case 1:
+		o.SizeMax = 1 << 20
+	case 2:
+		o.TrigramMax = 19000
+	case 3:
+		o.LargeFiles = []string{"*.nomatch"}
+	}
+}
+
+func c13GenHistory(r *vfRand) *c13Hist {
+	allNames := []string{"main", "dev", "rel"}
+	g := &c13Gen{r: r, cid: map[string]int{}, pid: map[string]int{}}
+	for i, p := range c13Paths {
+		g.pid[p] = i + 1
+	}
+	nb := 1 + r.Intn(3)
+	if r.Chance(50) {
+		nb = 2
+	}
+	h := &c13Hist{g: g, names: allNames[:nb], classes: map[string]bool{}}
+	// the indexed branches: usually all of them; sometimes HEAD (-> main) in addition: one commit under two branch names
+	idx := append([]string(nil), h.names...)
+	if nb > 1 && r.Chance(20) {
+		idx = idx[:1+r.Intn(nb-1)]
+	}
+	if r.Chance(25) {
+		idx = append([]string{"HEAD"}, idx...)
+	}
+	shardMax := 0
+	if r.Chance(30) {
+		shardMax = 40 + r.Intn(60) // several shards per build
+	}
+	if r.Chance(20) {
+		h.threshold = 1 + r.Intn(3)
+	}
+	optV := 0
+	if r.Chance(20) {
+		optV = r.Intn(4)
+	}
+	trees := make([]c13Tree, nb)
+	for i := range trees {
+		trees[i] = c13Tree{}
+		for _, p := range c13Paths {
+			if r.Chance(45) {
+				trees[i][p] = g.content(r.Pick(c13Pool))
+			}
+		}
+	}
+	if r.Chance(20) {
+		trees[r.Intn(nb)][r.Pick(c13Paths)] = -1 // starts with a submodule entry somewhere
+	}
+	var hist [][]c13Tree
+	nsteps := 2 + r.Intn(5)
+	for step := 0; step < nsteps; step++ {
+		if step > 0 {
+			c13Mutate(g, trees, hist, h.classes)
+			// ---- the request changes: list of indexed branches, index options, ShardMax
+			if r.Chance(14) {
+				old := fmt.Sprint(idx)
+				idx = append([]string(nil), idx...)
+				// "HEAD" stays in front: a query `branch:HEAD` means "the first indexed branch" (index/matchtree.go), whatever its name
+				lo := 0
+				if idx[0] == "HEAD" {
+					lo = 1
+				}
+				switch r.Intn(4) {
+				case 0: // index one more branch
+					var cand []string
+					for _, nm := range h.names {
+						found := false
+						for _, x := range idx {
+							found = found || x == nm
+						}
+						if !found {
+							cand = append(cand, nm)
+						}
+					}
+					if len(cand) > 0 {
+						at := lo + r.Intn(len(idx)-lo+1)
+						idx = append(idx[:at], append([]string{r.Pick(cand)}, idx[at:]...)...)
+					}
+				case 1: // stop indexing a branch
+					if len(idx)-lo > 1 {
+						at := lo + r.Intn(len(idx)-lo)
+						idx = append(idx[:at], idx[at+1:]...)
+					}
+				case 2: // same set, other order
+					if len(idx)-lo > 1 {
+						i, j := lo+r.Intn(len(idx)-lo), lo+r.Intn(len(idx)-lo)
+						idx[i], idx[j] = idx[j], idx[i]
+					}
+				case 3: // HEAD alias on / off
+					if lo == 1 {
+						idx = idx[1:]
+					} else {
+						idx = append([]string{"HEAD"}, idx...)
+					}
+				}
+				if fmt.Sprint(idx) != old {
+					h.classes["branch-list-change"] = true
+				}
+			}
+			if r.Chance(8) {
+				if v := r.Intn(4); v != optV {
+					optV = v
+					h.classes["index-options-change"] = true
+				}
+			}
+			if r.Chance(8) {
+				if shardMax == 0 {
+					shardMax = 40 + r.Intn(60)
+				} else {
+					shardMax = 0
+				}
+				h.classes["shardmax-change"] = true // not part of the options hash: no fallback
+			}
+		}
+		snap := make([]c13Tree, nb)
+		for i := range trees {
+			snap[i] = trees[i].clone()
+		}
+		hist = append(hist, snap)
+		delta := step > 0 && r.Chance(75)
+		if step == 0 && r.Chance(15) {
+			delta = true // requested delta without an index: falls back to a full build
+		}
+		par := 1
+		if r.Chance(25) {
+			par = 4
+		}
+		h.steps = append(h.steps, c13Step{par: par, trees: snap, idx: append([]string(nil), idx...), optV: optV, shardMax: shardMax,
+			delta: delta, orphan: step > 0 && r.Chance(15)})
+	}
+	return h
+}
+
+// c13ReadTruth parses `git fast-export --all --full-tree --no-data --show-original-ids`: commit id -> (path -> blob id) for the
+// file entries (submodule entries have mode 160000 and are skipped, like `git ls-tree` type "commit").
+func c13ReadTruth(t *testing.T, out string) map[string]map[string]string {
+	truth := map[string]map[string]string{}
+	rd := bufio.NewReader(strings.NewReader(out))
+	var cur map[string]string
+	for {
+		line, err := rd.ReadString('\n')
+		if err == io.EOF && line == "" {
+			break
+		}
+		line = strings.TrimSuffix(line, "\n")
+		switch {
+		case strings.HasPrefix(line, "data "):
+			var n int
+			fmt.Sscanf(line, "data %d", &n)
+			if _, err := io.CopyN(io.Discard, rd, int64(n)); err != nil {
+				t.Fatalf("fast-export: short data: %v", err)
+			}
+		case strings.HasPrefix(line, "commit "):
+			cur = nil
+		case strings.HasPrefix(line, "original-oid "):
+			cur = map[string]string{}
+			truth[strings.TrimPrefix(line, "original-oid ")] = cur
+		case strings.HasPrefix(line, "M "):
+			f := strings.SplitN(line, " ", 4)
+			if len(f) != 4 || cur == nil {
+				t.Fatalf("fast-export: unexpected line %q", line)
+			}
+			if f[1] != "160000" {
+				cur[f[3]] = f[2]
+			}
+		}
+		if err == io.EOF {
+			break
+		}
+	}
+	return truth
 }
 
 func TestVerifC13(t *testing.T) {
 	r := vfNewRand(vfSeed())
 	n := vfN(25)
 	// every shard builder allocates 2 x 16 MiB pointer tables; with the default GOGC most of the time goes into rescanning them
-	defer debug.SetGCPercent(debug.SetGCPercent(1000))
+	// (and a build allocates at least four of them: NewBuilder's probe shard builder is thrown away). Collect rarely, keep
+	// the freed spans resident: no GC until the heap reaches the memory limit.
+	if os.Getenv("C13_GC") == "" {
+		defer debug.SetGCPercent(debug.SetGCPercent(-1))
+		defer debug.SetMemoryLimit(debug.SetMemoryLimit(1 << 30))
+	} else {
+		defer debug.SetGCPercent(debug.SetGCPercent(1000))
+	}
 	root, err := os.MkdirTemp(os.Getenv("VERIF_TMP"), "c13-")
 	if err != nil {
 		t.Fatal(err)
 	}
 	defer os.RemoveAll(root)
-	allNames := []string{"main", "dev", "rel"}
-	for ci := 0; ci < n; ci++ {
-		g := &c13Gen{r: r, cid: map[string]int{}, pid: map[string]int{}}
-		for i, p := range c13Paths {
-			g.pid[p] = i + 1
+
+	// ---- all histories, then one repository per 50 histories with all their commits
+	all := make([]*c13Hist, n)
+	for i := range all {
+		all[i] = c13GenHistory(r)
+	}
+	for base := 0; base < n; base += 50 {
+		c13RunChunk(t, root, all[base:min(base+50, n)], base)
+	}
+}
+
+func c13RunChunk(t *testing.T, root string, hists []*c13Hist, base int) {
+	repoDir := filepath.Join(root, fmt.Sprintf("all%d.git", base))
+	defer os.RemoveAll(repoDir)
+	c13Git(t, root, "", "init", "-q", "--bare", repoDir)
+	if err := os.WriteFile(filepath.Join(repoDir, "HEAD"), []byte("ref: refs/heads/main\n"), 0o644); err != nil {
+		t.Fatal(err)
+	}
+	var fi bytes.Buffer
+	nmarks := 0
+	for hi, h := range hists {
+		committed := make([]c13Tree, len(h.names))
+		last := make([]int, len(h.names))
+		for si := range h.steps {
+			st := &h.steps[si]
+			st.marks = make([]int, len(h.names))
+			for i, name := range h.names {
+				if committed[i] != nil && committed[i].equal(st.trees[i]) {
+					st.marks[i] = last[i]
+					continue
+				}
+				nmarks++
+				msg := fmt.Sprintf("h%d s%d %s", hi, si, name)
+				fmt.Fprintf(&fi, "commit refs/verif/c%d\nmark :%d\ncommitter V <v@example.com> %d +0000\ndata %d\n%s\n", nmarks, nmarks, 1700000000+si*100+i, len(msg), msg)
+				if committed[i] != nil {
+					fmt.Fprintf(&fi, "from :%d\n", last[i])
+				}
+				fi.WriteString("deleteall\n")
+				for _, p := range st.trees[i].paths() {
+					if v := st.trees[i][p]; v < 0 {
+						fmt.Fprintf(&fi, "M 160000 %040x %s\n", -v, p)
+						continue
+					}
+					c := h.g.contents[st.trees[i][p]-1]
+					fmt.Fprintf(&fi, "M 100644 inline %s\ndata %d\n%s\n", p, len(c), c)
+				}
+				fi.WriteString("\n")
+				committed[i] = st.trees[i]
+				last[i] = nmarks
+				st.marks[i] = nmarks
+			}
 		}
-		nb := 1 + r.Intn(3)
-		if r.Chance(50) {
-			nb = 2
+	}
+	marksFile := filepath.Join(root, fmt.Sprintf("marks%d", base))
+	c13Git(t, repoDir, fi.String(), "fast-import", "--quiet", "--force", "--export-marks="+marksFile)
+	shaOf := make([]string, nmarks+1)
+	mb, err := os.ReadFile(marksFile)
+	if err != nil {
+		t.Fatal(err)
+	}
+	for _, l := range strings.Split(strings.TrimSpace(string(mb)), "\n") {
+		var m int
+		var sha string
+		if _, err := fmt.Sscanf(l, ":%d %s", &m, &sha); err != nil || m < 1 || m > nmarks {
+			t.Fatalf("marks file: %q", l)
 		}
-		names := allNames[:nb]
-		// sometimes index HEAD (-> main) as an additional branch: one commit under two branch names
-		withHead := r.Chance(25)
-		idxNames := append([]string(nil), names...)
-		if withHead {
-			idxNames = append([]string{"HEAD"}, names...)
+		shaOf[m] = sha
+	}
+	// the ground truth of the oracle: what git itself says the commits contain
+	truth := c13ReadTruth(t, c13Git(t, repoDir, "", "fast-export", "--all", "--full-tree", "--no-data", "--show-original-ids"))
+	for hi, h := range hists {
+		for si, st := range h.steps {
+			for i := range h.names {
+				tr, ok := truth[shaOf[st.marks[i]]]
+				if !ok {
+					t.Fatalf("history %d step %d branch %d: commit %s missing from git fast-export", hi, si, i, shaOf[st.marks[i]])
+				}
+				nfiles := 0
+				for p, v := range st.trees[i] {
+					if v < 0 {
+						continue
+					}
+					nfiles++
+					if tr[p] != c13BlobID([]byte(h.g.contents[v-1])) {
+						t.Fatalf("history %d step %d branch %d: git has %q at %s, generated %q", hi, si, i, tr[p], p, h.g.contents[v-1])
+					}
+				}
+				if nfiles != len(tr) {
+					t.Fatalf("history %d step %d branch %d: git lists %d files, generated %d", hi, si, i, len(tr), nfiles)
+				}
+			}
 		}
-		shardMax := 0
-		if r.Chance(30) {
-			shardMax = 40 + r.Intn(60) // several shards per build
-		}
-		repoDir := filepath.Join(root, fmt.Sprintf("h%d.git", ci))
+	}
+
+	refsHeads := filepath.Join(repoDir, "refs", "heads")
+	os.MkdirAll(refsHeads, 0o755)
+	for ci, h := range hists {
+		ci += base
+		g := h.g
+		classes := h.classes
 		indexDir := filepath.Join(root, fmt.Sprintf("h%d.idx", ci))
 		scratch := filepath.Join(root, fmt.Sprintf("h%d.raw", ci))
 		os.MkdirAll(indexDir, 0o755)
 		os.MkdirAll(scratch, 0o755)
-		c13Git(t, root, "", "init", "-q", "--bare", repoDir)
-		c13Git(t, repoDir, "", "symbolic-ref", "HEAD", "refs/heads/main")
-		trees := make([]c13Tree, nb)
-		committed := make([]c13Tree, nb)
-		for i := range trees {
-			trees[i] = c13Tree{}
+		for _, nm := range []string{"main", "dev", "rel"} {
+			os.Remove(filepath.Join(refsHeads, nm))
 		}
-		// initial content
-		for i := range trees {
-			for _, p := range c13Paths {
-				if r.Chance(45) {
-					trees[i][p] = g.content(r.Pick(c13Pool))
-				}
-			}
-		}
-		if r.Chance(20) {
-			trees[r.Intn(nb)][r.Pick(c13Paths)] = -1 // starts with a submodule entry somewhere
-		}
-		var hist [][]c13Tree
-		nsteps := 2 + r.Intn(5)
 		var runTerms, obsTerms []string
 		var runDesc []map[string]any
-		classes := map[string]bool{}
 		ndelta := 0
 		failed := false
-		for step := 0; step < nsteps && !failed; step++ {
-			if step > 0 {
-				c13Mutate(g, trees, hist, classes)
+		rawDocs := map[string][]string{} // shard file + build id -> raw documents (a shard never changes, only its sidecar)
+		var prev []c13ShardObs             // the shards before the run
+		// what the last build recorded (for the class labels only; the model computes the decision itself)
+		var metaIdx string
+		metaOpt := -1
+		for step := range h.steps {
+			st := &h.steps[step]
+			// ---- the branches move to the commits of this step
+			shaOfBranch := map[string]string{}
+			for i, name := range h.names {
+				sha := shaOf[st.marks[i]]
+				shaOfBranch[name] = sha
+				if err := os.WriteFile(filepath.Join(refsHeads, name), []byte(sha+"\n"), 0o644); err != nil {
+					t.Fatal(err)
+				}
 			}
-			// ---- commit the changed branches
-			var fi bytes.Buffer
-			for i, name := range names {
-				if committed[i] != nil && committed[i].equal(trees[i]) {
-					continue
+			shaOfBranch["HEAD"] = shaOfBranch["main"]
+			idxNames := st.idx
+			treeOf := func(name string) c13Tree {
+				if name == "HEAD" {
+					name = "main"
 				}
-				fmt.Fprintf(&fi, "commit refs/heads/%s\ncommitter V <v@example.com> %d +0000\ndata 5\nstep\n\n", name, 1700000000+step*100+i)
-				if committed[i] != nil {
-					fmt.Fprintf(&fi, "from refs/heads/%s^0\n", name)
-				}
-				fi.WriteString("deleteall\n")
-				for _, p := range trees[i].paths() {
-					if v := trees[i][p]; v < 0 {
-						fmt.Fprintf(&fi, "M 160000 %040x %s\n", -v, p)
-						continue
+				for i, nm := range h.names {
+					if nm == name {
+						return st.trees[i]
 					}
-					c := g.contents[trees[i][p]-1]
-					fmt.Fprintf(&fi, "M 100644 inline %s\ndata %d\n%s\n", p, len(c), c)
 				}
-				fi.WriteString("\n")
-				committed[i] = trees[i].clone()
-			}
-			if fi.Len() > 0 {
-				c13Git(t, repoDir, fi.String(), "fast-import", "--quiet", "--force")
-			}
-			snapCopy := make([]c13Tree, nb)
-			for i := range trees {
-				snapCopy[i] = trees[i].clone()
-			}
-			hist = append(hist, snapCopy)
-			// ---- index
-			delta := step > 0 && r.Chance(75)
-			if step == 0 && r.Chance(15) {
-				delta = true // requested delta without an index: falls back to a full build
-			}
-			if delta {
-				ndelta++
+				t.Fatalf("no branch %s", name)
+				return nil
 			}
 			opts := Options{
-				RepoDir:  repoDir,
-				Branches: append([]string(nil), idxNames...),
+				RepoDir:                           repoDir,
+				Branches:                          append([]string(nil), idxNames...),
+				DeltaShardNumberFallbackThreshold: uint64(h.threshold),
 				BuildOptions: index.Options{
 					IndexDir:              indexDir,
 					RepositoryDescription: zoekt.Repository{Name: "repo", ID: 5},
-					IsDelta:               delta,
+					IsDelta:               st.delta,
 					DisableCTags:          true,
-					ShardMax:              shardMax,
+					ShardMax:              st.shardMax,
+					Parallelism:           st.par,
 				},
 			}
-			// the trees the indexed branches point at (HEAD mirrors main)
-			idxTrees := trees
-			if withHead {
-				idxTrees = append([]c13Tree{trees[0]}, trees...)
+			if opts.BuildOptions.ShardMax == 0 {
+				// not the default of 100 MiB: the builder sizes its ngram maps by ShardMax (not part of the options hash)
+				opts.BuildOptions.ShardMax = 1 << 20
 			}
-			var treeTerms []string
-			var treeDesc []map[string]int
-			for i := range idxTrees {
-				treeTerms = append(treeTerms, c13TreeTerm(g, idxTrees[i]))
-				treeDesc = append(treeDesc, map[string]int(idxTrees[i].clone()))
+			c13ApplyOpts(st.optV, &opts.BuildOptions)
+			var treeTerms, brTerms []string
+			treeDesc := map[string]map[string]int{}
+			for _, nm := range idxNames {
+				treeTerms = append(treeTerms, c13TreeTerm(g, treeOf(nm)))
+				treeDesc[nm] = map[string]int(treeOf(nm).clone())
+				brTerms = append(brTerms, cN(c13BranchID[nm]))
 			}
 			kind := "Full"
-			if delta {
+			if st.delta {
 				kind = "Delta"
 			}
-			runTerms = append(runTerms, cTuple(cList(treeTerms), kind))
-			runDesc = append(runDesc, map[string]any{"kind": kind, "trees(path->content id)": treeDesc})
+			over := h.threshold > 0 && len(prev) > h.threshold
+			// expected decision, for the class labels
+			if st.delta {
+				switch {
+				case len(prev) == 0:
+					classes["fallback:no-shards"] = true
+				case over:
+					classes["fallback:shard-threshold"] = true
+				case metaIdx != fmt.Sprint(idxNames):
+					classes["fallback:branch-list"] = true
+				case metaOpt != st.optV:
+					classes["fallback:index-options"] = true
+				}
+			}
+			runTerms = append(runTerms, cTuple(cList(treeTerms), kind, cList(brTerms), cN(uint64(st.optV)), cBool(over)))
+			runDesc = append(runDesc, map[string]any{"requested": kind, "branches": idxNames, "options_variant": st.optV, "shard_max": st.shardMax,
+				"shards_before": len(prev), "trees(branch->path->content id)": treeDesc})
 			replay := func() map[string]any {
-				return map[string]any{"branches": idxNames, "shard_max": shardMax, "paths(id-1)": c13Paths, "contents(id-1)": g.contents, "runs": runDesc,
-					"how": "props/C13/NOTES.md (replay): commit the listed trees per run with git fast-import, call gitindex.IndexGitRepo with IsDelta per kind"}
+				return map[string]any{"git_branches": h.names, "delta_shard_number_fallback_threshold": h.threshold, "paths(id-1)": c13Paths,
+					"contents(id-1)": g.contents, "runs": runDesc,
+					"options_variants": "0 default, 1 SizeMax=1<<20, 2 TrigramMax=19000, 3 LargeFiles=[*.nomatch]",
+					"how": "props/C13/NOTES.md (replay): commit the listed trees per run with git fast-import, call gitindex.IndexGitRepo with the run's Branches / IsDelta / options"}
 			}
 			// sometimes a ".meta" sidecar WITHOUT shard waits at the next shard number (left by a run killed between removing a
 			// shard and its sidecar): it tombstones every path and carries old branch versions. The build must not let its new
 			// shard be read through it (Builder.Finish removes it first, fix b31ad3a).
-			if step > 0 && r.Chance(15) {
-				old, _ := filepath.Glob(filepath.Join(indexDir, "*.zoekt"))
-				if len(old) > 0 {
-					sort.Strings(old)
-					if repos, _, err := index.ReadMetadataPath(old[0]); err == nil && len(repos) == 1 {
-						orphan := *repos[0]
-						orphan.FileTombstones = map[string]struct{}{}
-						for _, p := range c13Paths {
-							orphan.FileTombstones[p] = struct{}{}
-						}
-						shard := filepath.Join(indexDir, fmt.Sprintf("repo_v%d.%05d.zoekt", index.IndexFormatVersion, len(old)))
-						if tmp, final, err := index.JsonMarshalRepoMetaTemp(shard, &orphan); err == nil {
-							os.Rename(tmp, final)
-							classes["orphan-sidecar"] = true
-						}
+			if st.orphan && len(prev) > 0 {
+				if repos, _, err := index.ReadMetadataPath(prev[0].file); err == nil && len(repos) == 1 {
+					orphan := *repos[0]
+					orphan.FileTombstones = map[string]struct{}{}
+					for _, p := range c13Paths {
+						orphan.FileTombstones[p] = struct{}{}
+					}
+					shard := filepath.Join(indexDir, fmt.Sprintf("repo_v%d.%05d.zoekt", index.IndexFormatVersion, len(prev)))
+					if tmp, final, err := index.JsonMarshalRepoMetaTemp(shard, &orphan); err == nil {
+						os.Rename(tmp, final)
+						classes["orphan-sidecar"] = true
 					}
 				}
 			}
@@ -400,28 +683,17 @@ func TestVerifC13(t *testing.T) {
 				failed = true
 				break
 			}
-			// ---- Go oracle: per-branch view vs git tree
+			metaIdx, metaOpt = fmt.Sprint(idxNames), st.optV
+			if os.Getenv("C13_GC") == "" {
+				runtime.GC() // the builder's tables are garbage now: the next build reuses their (resident) pages
+			}
+			// ---- Go oracle: per-branch view vs git's listing of the branch's commit
 			ss, err := search.NewDirectorySearcher(indexDir)
 			if err != nil {
 				t.Fatal(err)
 			}
 			for _, name := range idxNames {
-				want := map[string]string{}
-				ref := "refs/heads/" + name
-				if name == "HEAD" {
-					ref = "HEAD"
-				}
-				for _, l := range strings.Split(strings.TrimSpace(c13Git(t, repoDir, "", "ls-tree", "-r", ref)), "\n") {
-					if l == "" {
-						continue
-					}
-					tab := strings.IndexByte(l, '\t')
-					f := strings.Fields(l[:tab])
-					if f[1] != "blob" {
-						continue // gitlink
-					}
-					want[l[tab+1:]] = f[2]
-				}
+				want := truth[shaOfBranch[name]]
 				res, err := ss.Search(context.Background(), &query.Branch{Pattern: name, Exact: true}, &zoekt.SearchOptions{Whole: true})
 				if err != nil {
 					t.Fatal(err)
@@ -447,6 +719,23 @@ func TestVerifC13(t *testing.T) {
 					}
 				}
 			}
+			// a branch that is not (or no longer) indexed finds nothing
+			for _, name := range []string{"main", "dev", "rel"} {
+				indexed := false
+				for _, x := range idxNames {
+					indexed = indexed || x == name
+				}
+				if indexed {
+					continue
+				}
+				res, err := ss.Search(context.Background(), &query.Branch{Pattern: name, Exact: true}, &zoekt.SearchOptions{Whole: true})
+				if err != nil {
+					t.Fatal(err)
+				}
+				if len(res.Files) > 0 {
+					vfOracleFail("stale-doc:branch-not-indexed", fmt.Sprintf("run %d (%s): branch %s is not in the list of indexed branches but finds %s", step, kind, name, res.Files[0].FileName), replay())
+				}
+			}
 			ss.Close()
 			// ---- correspondence: the shard stack
 			fns, _ := filepath.Glob(filepath.Join(indexDir, "*.zoekt"))
@@ -457,11 +746,16 @@ func TestVerifC13(t *testing.T) {
 				if err != nil || len(repos) != 1 {
 					t.Fatalf("ReadMetadataPath(%s): %v", fn, err)
 				}
-				so := c13ShardObs{id: md.ID}
+				so := c13ShardObs{file: fn, id: md.ID}
 				for p := range repos[0].FileTombstones {
 					so.tombs = append(so.tombs, g.pid[p])
 				}
 				sort.Ints(so.tombs)
+				if docs, ok := rawDocs[fn+" "+md.ID]; ok {
+					so.docs = docs
+					shards = append(shards, so)
+					continue
+				}
 				// raw documents: the shard read without its sidecar
 				raw := filepath.Join(scratch, filepath.Base(fn))
 				b, _ := os.ReadFile(fn)
@@ -482,11 +776,16 @@ func TestVerifC13(t *testing.T) {
 				if err != nil {
 					t.Fatal(err)
 				}
+				// the branch names of a raw document are those of the build that wrote the shard
+				rawRepos, _, err := index.ReadMetadataPath(raw)
+				if err != nil || len(rawRepos) != 1 {
+					t.Fatalf("ReadMetadataPath(%s): %v", raw, err)
+				}
 				for _, fm := range res.Files {
 					var bs []int
 					for _, bn := range fm.Branches {
-						for i, nm := range idxNames {
-							if nm == bn {
+						for i, rb := range rawRepos[0].Branches {
+							if rb.Name == bn {
 								bs = append(bs, i)
 							}
 						}
@@ -497,8 +796,34 @@ func TestVerifC13(t *testing.T) {
 				s.Close() // only now: file names / contents of the result point into the mapped shard
 				os.Remove(raw)
 				sort.Strings(so.docs)
+				if so.docs == nil {
+					so.docs = []string{}
+				}
+				rawDocs[fn+" "+md.ID] = so.docs
 				shards = append(shards, so)
 			}
+			// ---- which kind of build happened: a delta build keeps every old shard, a normal build replaces them all
+			kept, gone := 0, 0
+			for _, o := range prev {
+				found := false
+				for _, s := range shards {
+					found = found || (s.file == o.file && s.id == o.id)
+				}
+				if found {
+					kept++
+				} else {
+					gone++
+				}
+			}
+			wasDelta := len(prev) > 0 && gone == 0
+			if kept > 0 && gone > 0 {
+				vfOracleFail("mixed-build", fmt.Sprintf("run %d (%s): %d old shards kept, %d replaced", step, kind, kept, gone), replay())
+			}
+			if wasDelta {
+				ndelta++
+			}
+			runDesc[len(runDesc)-1]["observed"] = map[bool]string{true: "delta build", false: "normal build"}[wasDelta]
+			prev = shards
 			// group consecutive shards of one build into a layer
 			var layers []string
 			for i := 0; i < len(shards); {
@@ -526,26 +851,22 @@ func TestVerifC13(t *testing.T) {
 			if len(layers) > 0 {
 				lt = cList(layers)
 			}
-			obsTerms = append(obsTerms, lt)
+			obsTerms = append(obsTerms, cTuple(cBool(wasDelta), lt))
 		}
 		if failed || len(runTerms) == 0 {
 			continue
 		}
-		coq := cTuple(cNat(len(idxNames)), cList(runTerms), cList(obsTerms))
+		coq := cTuple(cList(runTerms), cList(obsTerms))
 		var cl []string
 		for k := range classes {
 			cl = append(cl, k)
 		}
 		sort.Strings(cl)
-		cl = append(cl, fmt.Sprintf("branches=%d", len(idxNames)), fmt.Sprintf("deltas=%d", ndelta))
-		if withHead {
-			cl = append(cl, "HEAD-alias")
+		cl = append(cl, fmt.Sprintf("git-branches=%d", len(h.names)), fmt.Sprintf("delta-builds=%d", ndelta))
+		if h.threshold > 0 {
+			cl = append(cl, "shard-threshold")
 		}
-		if shardMax > 0 {
-			cl = append(cl, "multi-shard-builds")
-		}
-		vfCase(coq, vfKey(coq), ndelta >= 1 && len(classes) >= 1, cl, map[string]any{"branches": idxNames, "shard_max": shardMax, "runs": runDesc})
-		os.RemoveAll(repoDir)
+		vfCase(coq, vfKey(coq), ndelta >= 1 && len(classes) >= 1, cl, map[string]any{"git_branches": h.names, "threshold": h.threshold, "runs": runDesc})
 		os.RemoveAll(indexDir)
 		os.RemoveAll(scratch)
 	}
